@@ -271,6 +271,18 @@ class ModelBasedSearcher(StochasticSearcher):
         metric_val = result[self._metric]
         # Reject NaN or infinite values
         if np.isnan(metric_val) or np.isinf(metric_val):
+            # The evaluation has arrived, even if its value cannot be used:
+            # drop the pending evaluation it would have replaced. The config
+            # remains blacklisted for future ``get_config`` calls
+            metric_vals = self._metric_val_update(metric_val, result)
+            if isinstance(metric_vals, dict):
+                for resource in metric_vals.keys():
+                    self.state_transformer.drop_pending_evaluation(
+                        trial_id, resource=int(resource)
+                    )
+            else:
+                self.state_transformer.drop_pending_evaluation(trial_id)
+            self.state_transformer.mark_trial_failed(trial_id)
             return
         # Transform to criterion to be minimized
         if self.map_reward is not None:
